@@ -7,10 +7,12 @@ package main
 import (
 	"bytes"
 	"fmt"
+	"os"
 	"strings"
 
 	"verifharness/internal/hx"
 	"verifharness/internal/prng"
+	"verifharness/internal/xbgen"
 	"verifharness/internal/xbobs"
 
 	"github.com/acquirecloud/golibs/xbinary"
@@ -76,6 +78,7 @@ func coqInts(xs []int) string {
 func observeItem(o *xbobs.Obs, s *hx.Sink, id uint64, it Item, rooms []int, fill byte, tail, extra []byte) {
 	body := xbobs.Expand(it.Body)
 	if sz, ok := xbobs.Size(it.K, it.V, body); ok {
+		o.Mark("%s %d/len %d: Writable*Size", it.K, it.V, len(body))
 		o.AddInt(sz)
 	}
 	for _, room := range rooms {
@@ -84,6 +87,7 @@ func observeItem(o *xbobs.Obs, s *hx.Sink, id uint64, it Item, rooms []int, fill
 			buf[i] = fill
 		}
 		st, n := xbobs.Marshal(it.K, it.V, body, buf)
+		o.Mark("Marshal into %d bytes: ok,n,buf", room)
 		o.Add(st)
 		o.AddInt(n)
 		o.AddBytes(buf)
@@ -94,6 +98,7 @@ func observeItem(o *xbobs.Obs, s *hx.Sink, id uint64, it Item, rooms []int, fill
 	if err != nil {
 		n = -1
 	}
+	o.Mark("ObjectsWriter: n,len,bytes")
 	o.AddInt(n)
 	o.AddInt(bb.Len())
 	o.AddBytes(bb.Bytes())
@@ -105,6 +110,7 @@ func observeItem(o *xbobs.Obs, s *hx.Sink, id uint64, it Item, rooms []int, fill
 	for _, newBuf := range variants {
 		src := xbobs.Slice(enc, extra)
 		d := xbobs.Decode(it.K, src, newBuf)
+		o.Mark("Unmarshal(bytes++tail) newBuf=%v", newBuf)
 		o.AddDecoded(it.K, d)
 		if d.Status == 1 && xbobs.IsBytesKind(it.K) && len(d.Data) > 0 {
 			// independence from the source: overwrite the whole source array and re-read the result
@@ -159,9 +165,11 @@ func observeStream(o *xbobs.Obs, c Case) {
 		}
 		total += n
 	}
+	o.Mark("ObjectsWriter stream: n,len,bytes")
 	o.AddInt(total)
 	o.AddInt(bb.Len())
 	o.AddBytes(bb.Bytes())
+	o.Mark("Marshal* in sequence: (ok,n)*, len, bytes")
 	// the same items through Marshal*, one after the other into one buffer
 	buf := make([]byte, c.Room)
 	pos := 0
@@ -187,6 +195,7 @@ func observeStream(o *xbobs.Obs, c Case) {
 	// the reading loop
 	src := xbobs.Slice(append(append([]byte{}, bb.Bytes()...), tail...), extra)
 	rest := src
+	o.Mark("reading loop: (ok,n,value)*, bytes left")
 	for _, it := range c.Xs {
 		d := xbobs.Decode(it.K, rest, false)
 		if d.Status != 1 || d.N < 0 || d.N > len(rest) {
@@ -210,7 +219,7 @@ func observeStream(o *xbobs.Obs, c Case) {
 }
 
 func runCase(c Case, s *hx.Sink) string {
-	o := &xbobs.Obs{}
+	o := &xbobs.Obs{Verbose: explain}
 	var in string
 	switch c.Mode {
 	case "items":
@@ -224,6 +233,9 @@ func runCase(c Case, s *hx.Sink) string {
 		in = fmt.Sprintf("(InStream %s %d%%N %s %s)", coqItems(c.Xs), c.Room, coqInts(c.Tail), coqInts(c.Extra))
 	default:
 		panic("bad mode " + c.Mode)
+	}
+	if explain {
+		fmt.Printf("case %d, observed on the implementation:\n%s", c.ID, o.Explain())
 	}
 	s.Extra["numbers_compared"] = s.Extra["numbers_compared"].(int) + len(o.L)
 	if len(o.L) > xbobs.ExactMax {
@@ -319,8 +331,11 @@ func randOfBits(r *prng.R, nb int) uint64 {
 	return v | 1<<uint(nb-1)
 }
 
+var explain bool
+
 func main() {
 	fl := hx.ParseFlags()
+	explain = fl.Explain
 	if fl.Shard == 500 {
 		fl.Shard = 64
 	}
@@ -387,7 +402,9 @@ func main() {
 		it := Item{K: kind, V: v}
 		emit(Case{Mode: "items", Xs: []Item{it}, Rooms: seq(0, trueSize(it)+1), Fill: r.Intn(256),
 			Tail: xbobs.Ints(randBytes(r, r.Intn(4))), Extra: xbobs.Ints(randBytes(r, r.Intn(2)*3))})
-		s.Count(fmt.Sprintf("uint-size:%d", xbobs.TrueUintSize(v)))
+		if kind == "uint" {
+			s.Count(fmt.Sprintf("uint-size:%d", xbobs.TrueUintSize(v)))
+		}
 	}
 	var bnd []uint64
 	for k := uint(0); k <= 9; k++ {
@@ -401,6 +418,20 @@ func main() {
 			p = uint64(1) << k
 		}
 		bnd = append(bnd, p-1, p, p+1)
+	}
+	// ... and the thresholds of WritableUintSize as they are written in the source today (+-1),
+	// so that a typo in one constant or comparison is hit by a concrete value
+	repo := os.Getenv("VERIF_REPO")
+	if repo == "" {
+		repo = "/repo"
+	}
+	if _, ths, err := xbgen.Translate(repo); err == nil {
+		for _, c := range ths {
+			bnd = append(bnd, c-1, c, c+1)
+		}
+		s.Count(fmt.Sprintf("size-table-thresholds-read-from-source:%d", len(ths)))
+	} else {
+		s.Count("size-table-thresholds-read-from-source:unavailable")
 	}
 	n := uint64(0)
 	for _, kind := range []string{"uint", "u64", "u32", "u16"} {
